@@ -45,7 +45,10 @@ def append_trail(obj: T, trail_element: TrailElement) -> T:
         # noinspection PyProtectedMember
         trail = obj._adaptix_struct_trail  # type: ignore[attr-defined]
     except AttributeError:
-        obj._adaptix_struct_trail = deque([trail_element])  # type: ignore[attr-defined]
+        try:
+            obj._adaptix_struct_trail = deque([trail_element])  # type: ignore[attr-defined]
+        except (AttributeError, TypeError):  # frozen dataclass, restrictive __setattr__
+            pass
     else:
         trail.appendleft(trail_element)
     return obj
@@ -60,7 +63,10 @@ def extend_trail(obj: T, sub_trail: Reversible[TrailElement]) -> T:
         # noinspection PyProtectedMember
         trail = obj._adaptix_struct_trail  # type: ignore[attr-defined]
     except AttributeError:
-        obj._adaptix_struct_trail = deque(sub_trail)  # type: ignore[attr-defined]
+        try:
+            obj._adaptix_struct_trail = deque(sub_trail)  # type: ignore[attr-defined]
+        except (AttributeError, TypeError):  # frozen dataclass, restrictive __setattr__
+            pass
     else:
         trail.extendleft(reversed(sub_trail))
     return obj
